@@ -81,6 +81,12 @@ def make_inputs(rng, kind):
         return {"main.pn": b"fn main() -> i32\n{\n\treturn: 1\n}\n// \xff\xfe\n"}, ["main.pn"], True, False, ["main.pn"]
     if kind == "empty_file":
         return {"main.pn": b""}, ["main.pn"], False, True, ["main.pn"]
+    if kind == "valid_large":
+        prog = pngen.generate(rng, n_funcs=rng.randint(30, 60))
+        return {"main.pn": prog.single_file().encode()}, ["main.pn"], True, True, ["main.pn"]
+    if kind == "package_only":
+        pkg = rng.choice(["core:text", "core:text/char.pn", "vendor:libc"])
+        return {}, [pkg], True, True, []
     if kind == "with_core":
         src = b'import "core:text/char.pn";\n\nfn main() -> i32\n{\n\tvar result = 0;\n\tvar t = is_control_char(0);\n\tif t == false\n\t{\n\t\tresult = 1;\n\t}\n\treturn: result\n}\n'
         return {"main.pn": src}, ["main.pn", "core:text"], True, True, ["main.pn"]
@@ -88,7 +94,7 @@ def make_inputs(rng, kind):
 
 
 INPUT_KINDS = ["valid_single", "valid_multi", "invalid_single", "invalid_multi", "syntax_error", "missing_file",
-               "directory_as_file", "non_utf8", "empty_file", "with_core"]
+               "directory_as_file", "non_utf8", "empty_file", "with_core", "valid_large", "package_only"]
 
 
 def make_scenario(rng, sub=None, input_kind=None, force=None):
